@@ -421,6 +421,10 @@ def native_replay(scratch_repo, pkg, harness_file_rel, test_text, tests=False, r
     if not m2:
         return None, out[-3000:]
     failed = m2.group(1) == "FAILED"
+    if failed and "`kani::assume` should always hold" in out:
+        # the concrete input violates an assumption of the harness when the REAL functions run (it passed through an
+        # abstraction, e.g. A4'/A1): that is "did not reproduce", not a confirmation
+        return False, "(the replay stopped at a harness assumption, not at the failed obligation: not reproduced)\n" + out[-3000:]
     # keep the part of the output that belongs to the test (panic message), not the build log
     i = out.find("running 1 test")
     if i >= 0:
